@@ -75,7 +75,7 @@ def run(chk):
     # growth paths: the regenerated emitters' capacity tests / doubling reallocations refine model/Append.v's
     # grow steps on the IR machine (coq/props/TIE_append.v)
     from props._tie import run_tie
-    run_tie(chk, ["append"])
+    run_tie(chk, ["append", "genir"])
     redzone_sweep(chk, caps)
     if not quick:
         asan_sweep(chk)
